@@ -9,7 +9,7 @@
   mirrored by the model; the RST-then-reconnect race in which that hits a newer connection is
   outside C13 by this hypothesis.
 -/
-import Proofs.SysEvents
+import Proofs.SysEventsMore
 namespace Hap.Sys
 
 /-- **C13_clean (state form).** In every reachable state, for every protocol object `p` whose loss
@@ -156,6 +156,31 @@ theorem C13_idle_active (c : Cfg) (hc : c.fix13 = true) (tr1 tr2 : List Ev) (p :
     rw [e] at hm
     omega
 
+/-- **C13_idle (being written to is activity too).** If a step writes bytes to connection `p` — an
+    EVENT message pushed to it or an HTTP response, at time `t0` — then an idle sweep at any later time
+    `≤ t0 + 90 h`, after any history in between, does not close it: `write()` refreshes
+    `last_activity`, so a controller that only listens to events is never swept as idle while events
+    keep arriving. Together with `C13_idle_active` (requests received) this covers "every read and
+    write". -/
+theorem C13_idle_active_write (c : Cfg) (hc : c.fix13 = true) (tr1 tr2 : List Ev) (e : Ev) (p : ObjId) (o : Out) :
+    let s1 := (run c (init c) tr1).1
+    let s2 := (run c (step c s1 e).1 tr2).1
+    o ∈ (step c s1 e).2 → o.isWriteTo p → s2.now ≤ s1.now + IDLE →
+    (s2.obj p).closing = false → ((step c s2 Ev.idleSweep).1.obj p).closing = false := by
+  intro s1 s2 ho hw hnow h2
+  have hA1 : InvA s1 := invA_run c hc tr1 _ (invA_init c)
+  have hA1' : InvA (step c s1 e).1 := invA_step c hc _ _ hA1
+  obtain ⟨hlast, _, hp⟩ := step_write_refreshes c s1 e p o ho hw
+  have hp' : p < (step c s1 e).1.nobj := Nat.lt_of_lt_of_le hp (step_nobj_le c s1 _)
+  have hm := run_last_mono c hc tr2 _ p hp' hA1'
+  cases hh : ((step c s2 Ev.idleSweep).1.obj p).closing with
+  | false => rfl
+  | true =>
+    have := (idleSweep_closes_only_idle c s2 p h2 hh).2
+    have e2 : (run c (step c s1 e).1 tr2).1 = s2 := rfl
+    rw [e2] at hm
+    omega
+
 /-! ### the code before the repair: the old object's timer survives `close()` -/
 
 def exCfg : Cfg := { imm := fun x => x == 2 || x == 3, nul := fun x => x == 2 }
@@ -186,6 +211,16 @@ example :
     let s := (run exCfg (init exCfg) legacyTrace).1
     (s.obj 0).lost = true ∧ allLost (run exCfg (init exCfg) (legacyTrace.take 5)).1 0 ∧
     s.reg 0 = some 1 ∧ subscribed s 0 0 ∧ (step exCfg s (Ev.timerFire 0)).2 = [] := by
+  decide
+
+/-- non-vacuity of `C13_idle_active_write`: a connection that has sent nothing for almost 90 h is
+    pushed an EVENT; 89 h later it is still open and the sweep spares it -/
+example :
+    let tr1 := [Ev.connect 0, Ev.verify 0, Ev.data 0 (Req.put 0 (some true) none false), Ev.tick (IDLE - 100), Ev.appSet 0 5]
+    let s1 := (run exCfg (init exCfg) tr1).1
+    let s2 := (run exCfg (step exCfg s1 (Ev.timerFire 0)).1 [Ev.tick (IDLE - 200)]).1
+    Out.event 0 (IDLE - 100) [(0, 5)] ∈ (step exCfg s1 (Ev.timerFire 0)).2 ∧ s2.now ≤ s1.now + IDLE ∧
+    (s2.obj 0).closing = false ∧ ((step exCfg s2 Ev.idleSweep).1.obj 0).closing = false := by
   decide
 
 /-- an idle sweep that does close a connection (silent for more than 90 h) -/
